@@ -28,8 +28,11 @@ from hl7apy.core import Group
 from hl7apy.parser import parse_message, parse_segment
 
 VERSIONS = S.VERSIONS
-MODES = ('req', 'all', 'rep2')
-MODE_CODE = {'req': 1, 'all': 2, 'rep2': 3, None: 0}
+MODES = ('req', 'all', 'rep2', 'rep2x')
+# rep2x (oracle and names-level model only, not part of the Coq sweep): a repeatable group appears twice, first with
+# all its children, then in its required-only form, when that form starts with a NON-repeatable direct member that
+# is not the group's first child - the recurrence of that member must open the new repetition
+MODE_CODE = {'req': 1, 'all': 2, 'rep2': 3, 'rep2x': 0, None: 0}
 
 # ------------------------------------------------------------------------------------------
 # instance families (the same definition as coq/Model/Groups.v `instance`; agreement is checked
@@ -63,6 +66,24 @@ def first_member(ref):
 def instance(ref, mode, depth=0):
     """prescribed forest: list of segment names / (group name, children)"""
     out = []
+    if mode == 'rep2x':
+        for name, cref, card, kind in ref[1]:
+            if kind == 'SEG':
+                out.append(name)
+            elif kind == 'GRP':
+                kids1 = instance(cref, 'all', depth + 1)
+                if not kids1:
+                    continue
+                out.append((name, kids1))
+                mn, mx = card
+                if (mx == -1 or mx > 1) and depth < 3:
+                    kids2 = instance(cref, 'req', depth + 1) or first_member(cref)
+                    lead = kids2[0] if kids2 else None
+                    rows = {r[0]: r for r in cref[1]}
+                    if isinstance(lead, str) and lead in rows and rows[lead][3] == 'SEG' and rows[lead][2][1] == 1 \
+                            and cref[1][0][0] != lead:
+                        out.append((name, kids2))
+        return out
     for name, cref, card, kind in ref[1]:
         if kind == 'SEG':
             out.extend([name] * copies(mode, kind, depth, card))
